@@ -119,6 +119,7 @@ def run(ctx):
     logging.getLogger("mellon.validation").setLevel(logging.CRITICAL)
     rng = random.Random(ctx.seed)
     nrng = np.random.default_rng(ctx.seed)
+    enc.NP_DISTINCT = True
     ctx.cov["trusted_base"] = TRUSTED_COMMON + [
         "jnp.isscalar / asarray(dtype=float) / full / squeeze / reshape / concatenate given list semantics in coq/lib/PyVal.v and compared exactly with JAX on every case of this run",
         "make_multi_time_argument (closure over *args/**kwargs, vmap) is not translated: its structural facts (conflict guard, in_axes=0, out_axes=1, time passed by keyword) are a generated table; its behaviour is compared with per-time calls on real predictors",
@@ -161,8 +162,6 @@ def run(ctx):
                 for cast in (True, False):
                     for nf in (d + 1, None):
                         o = enc.outcome(lambda: validate_time_x(xv, tv, n_features=nf, cast_scalar=cast))
-                        if o[0] == "ok":
-                            o = ("ok", np.asarray(o[1]))
                         model = "py_validation_validate_time_x %s %s %s %s" % (enc.val(xv), enc.val(tv), enc.val(nf), enc.val(cast))
                         cases.append((model, enc.res(o)))
                         meta.append({"form": fname, "n": n, "d": d, "cast_scalar": cast, "n_features": nf,
